@@ -87,18 +87,25 @@ class Ctx:
         # enumerations): counted instead of hashed.
         self.bulk_nontrivial = 0
         self.max_samples = 6
+        self.subkey: Optional[Callable[[Any, str], str]] = None
 
     # -- running ---------------------------------------------------------
-    def run(self, case: Any) -> Verdict:
+    def run(self, case: Any, enumerated: bool = False) -> Verdict:
+        """Evaluate and record. ``enumerated``: the caller enumerates distinct
+        cases, so a non-trivial one is counted instead of hashed."""
         v = self.evaluate(case)
-        self.record(case, v)
+        self.record(case, v, enumerated)
         return v
 
-    def record(self, case: Any, v: Verdict) -> None:
+    def record(self, case: Any, v: Verdict, enumerated: bool = False) -> None:
         self.evaluations += 1
         for lab in v.labels:
             self.classes[lab] += 1
-        if v.nontrivial:
+        if v.nontrivial and enumerated and v.key is None:
+            self.bulk_nontrivial += 1
+            if len(self.samples) < self.max_samples and self.bulk_nontrivial % 97 == 1:
+                self.samples.append(_trim(case))
+        elif v.nontrivial:
             h = case_hash(case if v.key is None else v.key)
             if h not in self.nontrivial:
                 self.nontrivial.add(h)
@@ -111,8 +118,13 @@ class Ctx:
         for bucket, detail in v.failures:
             self.failure_counts[bucket] += 1
             lst = self.failures.setdefault(bucket, [])
-            if len(lst) < 3:
-                lst.append((case, detail))
+            # keep a few cases per (bucket, sub-key): the sub-key (e.g. which
+            # known-finding predicates the case satisfies) keeps a new root cause
+            # from being crowded out of a bucket dominated by a known one
+            sk = self.subkey(case, bucket) if self.subkey else ""
+            n_same = sum(1 for c, d, k in lst if k == sk)
+            if n_same < 3 and len(lst) < 24:
+                lst.append((case, detail, sk))
 
     def count(self, n: int = 1) -> None:
         """Count evaluations performed outside ``run`` (e.g. fuzz executions)."""
@@ -141,8 +153,10 @@ class Ctx:
         for b, lst in other["failures"].items():
             mine = self.failures.setdefault(b, [])
             for item in lst:
-                if len(mine) < 3:
-                    mine.append(tuple(item))
+                item = tuple(item)
+                n_same = sum(1 for c, d, k in mine if k == item[2])
+                if n_same < 3 and len(mine) < 24:
+                    mine.append(item)
         self.failure_counts.update(other["failure_counts"])
         self.bulk_nontrivial += other.get("bulk_nontrivial", 0)
         for k, v in other.get("extra", {}).items():
@@ -332,7 +346,7 @@ def finish(
         if entries:
             # With a case predicate, only cases satisfying it belong to the finding.
             unexplained = []
-            for case, detail in cases:
+            for case, detail, _sk in cases:
                 explained = False
                 for e in entries:
                     p = preds.get(e.get("id", ""))
@@ -346,7 +360,7 @@ def finish(
                 known_hit[entries[0].get("id")] += ctx.failure_counts[bucket] - len(cases)
                 continue
             cases = unexplained
-        case, detail = cases[0]
+        case, detail = cases[0][0], cases[0][1]
 
         def still_fails(c: Any, _b: str = bucket) -> bool:
             v = ctx.evaluate(c)
@@ -424,6 +438,7 @@ def _shard_entry(args: tuple) -> dict:
 
     mod = importlib.import_module(modname)
     ctx = Ctx(mod.PID, tier, seed, mod.evaluate)
+    ctx.subkey = getattr(mod, "failure_subkey", None)
     try:
         mod.campaign(ctx, tier, shard, nshards)
     except Exception:  # noqa: BLE001
